@@ -94,18 +94,9 @@ def _compile_steps(vfs_dump: dict, steps: list[dict]) -> list[dict]:
         finally:
             _disarm_budget()
         if "raised" in out:
-            # "never yield output": every result attribute is None or the very object (and content) it was before
-            leaks = []
-            for a, old in before.items():
-                cur = getattr(c, a)
-                if cur is not None and cur is not old:
-                    leaks.append(a)
-            if not leaks and before_digest is not None and all(getattr(c, a) is before[a] for a in before):
-                try:
-                    if model.canon(model.compile_digest(c)) != before_digest:
-                        leaks.append("content-of-previous-result-changed")
-                except Exception:
-                    leaks.append("previous-result-unreadable")
+            # "never yield output": after a rejection nothing can be read from the object as if it were the result of the
+            # rejected program - neither something new nor what an earlier compile on this object left there
+            leaks = [a for a in before if getattr(c, a) is not None]
             out["leaks"] = leaks
         out["vfs_counts"] = dict(vfs.counts)
         if "ok" in out and st.get("want_usage"):
@@ -519,13 +510,13 @@ def c10_worlds(rng: random.Random) -> list[dict]:
     """[{name, vfs, main, lookup, expect: 'reject'|'answer'}] - import graphs and placements of offending statements."""
     out = []
 
-    def W(name, files: dict, main="/proj/SCRIPT/main.exps", lookup=None, links=None, expect="reject"):
+    def W(name, files: dict, main="/proj/SCRIPT/main.exps", lookup=None, links=None, expect="reject", repair=None):
         v = Vfs("/proj")
         for p, t in files.items():
             v.write(p, t)
         for p, t in (links or {}).items():
             v.symlink(p, t)
-        out.append({"name": name, "vfs": v.dump(), "main": main, "lookup": lookup or [], "expect": expect})
+        out.append({"name": name, "vfs": v.dump(), "main": main, "lookup": lookup or [], "expect": expect, "repair": repair})
 
     M = "/proj/SCRIPT/main.exps"
     use = "def 0 {\n    ~lm();\n    end;\n}\n"
@@ -546,9 +537,11 @@ def c10_worlds(rng: random.Random) -> list[dict]:
                  "/proj/SCRIPT/d2.exps": "macro m2() { o(); }\n"}
         tgt = [M, "/proj/SCRIPT/d1.exps", "/proj/SCRIPT/d2.exps"][depth]
         files[tgt] = 'import "./gone.exps";\n' + files[tgt]
-        W(f"missing_file_depth_{depth}", files)
+        fixed_gone = {"write": {"/proj/SCRIPT/gone.exps": "macro was_gone() {\n    g_op();\n}\n"}}
+        W(f"missing_file_depth_{depth}", files, repair=fixed_gone)
         files2 = dict(files)
-        W(f"dangling_symlink_depth_{depth}", files2, links={"/proj/SCRIPT/gone.exps": "/proj/nowhere/x.exps"})
+        W(f"dangling_symlink_depth_{depth}", files2, links={"/proj/SCRIPT/gone.exps": "/proj/nowhere/x.exps"},
+          repair={"remove": ["/proj/SCRIPT/gone.exps"], **fixed_gone})
     W("missing_in_lookup_paths", {M: 'import "lib/x.exps";\n' + VALID_MAIN, "/proj/unlisted/lib/x.exps": leaf}, lookup=["/proj/macros", "/opt/shared"])
     W("lookup_import_with_dot_segments", {M: 'import "lib/../x.exps";\n' + VALID_MAIN, "/proj/macros/x.exps": leaf}, lookup=["/proj/macros"])
     W("import_of_a_directory", {M: 'import "./lib";\n' + VALID_MAIN, "/proj/SCRIPT/lib/x.exps": leaf}, expect="reject-or-oserror")
@@ -556,8 +549,9 @@ def c10_worlds(rng: random.Random) -> list[dict]:
         files = {M: 'import "./d1.exps";\n' + use, "/proj/SCRIPT/d1.exps": 'import "./d2.exps";\n' + leaf,
                  "/proj/SCRIPT/d2.exps": "macro m2() { o(); }\n"}
         tgt = [None, "/proj/SCRIPT/d1.exps", "/proj/SCRIPT/d2.exps"][depth]
+        good = files[tgt]
         files[tgt] += "\ndef 0 {\n    routine_in_import();\n    end;\n}\n"
-        W(f"routines_in_imported_file_depth_{depth}", files)
+        W(f"routines_in_imported_file_depth_{depth}", files, repair={"write": {tgt: good}})
         files3 = dict(files)
         files3[tgt] = files3[tgt].replace("def 0 {", "coro C {")
         W(f"coroutine_in_imported_file_depth_{depth}", files3)
@@ -568,10 +562,12 @@ def c10_worlds(rng: random.Random) -> list[dict]:
         W(f"{nm}@macro_of_main", {M: extra + _wrap(body, "macro") + "def 0 {\n    ~bad();\n    end;\n}\n"})
         W(f"{nm}@uncalled_macro_of_main", {M: extra + _wrap(body, "macro") + VALID_MAIN})
         W(f"{nm}@macro_file_depth_1", {M: 'import "./d1.exps";\ndef 0 {\n    ~bad();\n    end;\n}\n',
-                                       "/proj/SCRIPT/d1.exps": extra + _wrap(body, "macro")})
+                                       "/proj/SCRIPT/d1.exps": extra + _wrap(body, "macro")},
+          repair={"write": {"/proj/SCRIPT/d1.exps": _wrap("repaired(1);", "macro")}})
         W(f"{nm}@macro_file_depth_2", {M: 'import "lib/d1.exps";\ndef 0 {\n    ~viad1();\n    end;\n}\n',
                                        "/proj/macros/lib/d1.exps": 'import "../../SCRIPT/d2.exps";\nmacro viad1() {\n    ~bad();\n}\n',
-                                       "/proj/SCRIPT/d2.exps": extra + _wrap(body, "macro")}, lookup=["/proj/macros"])
+                                       "/proj/SCRIPT/d2.exps": extra + _wrap(body, "macro")}, lookup=["/proj/macros"],
+          repair={"write": {"/proj/SCRIPT/d2.exps": _wrap("repaired(2);", "macro")}})
     # offending statements after a closed, valid construct - in the same routine and in a later routine
     for nm, body in INVALID_BODIES.items():
         if nm == "syntax_error":
@@ -718,9 +714,28 @@ def c10_run(item: dict) -> dict:
     if ("ok" in outs[1]) != ("ok" in fresh) or ("raised" in fresh and outs[1].get("raised") != fresh["raised"]):
         viol("same-verdict-on-reused-compiler", f"{res['outcome']}-vs-{'ok' if 'ok' in outs[1] else outs[1]['raised']}")
     if "raised" in outs[1] and outs[1].get("leaks"):
-        viol("never-yields-output", "attributes-hold-new-output:" + ",".join(outs[1]["leaks"]))
+        viol("never-yields-output", "result-attributes-readable-after-rejection:" + ",".join(outs[1]["leaks"]))
     if "ok" not in pristine or "ok" not in outs[2] or model.canon(pristine["ok"]) != model.canon(outs[2]["ok"]):
         viol("next-valid-compile-equals-pristine", "differs")
+    # the offending file is repaired and the same script compiled again on the same compiler object: the earlier
+    # rejection must have left nothing behind (names on an import chain, half-registered files, cached failures)
+    if w.get("repair"):
+        rp = w["repair"]
+        steps = [{"op": "compile", "main": w["main"], "lookup": w["lookup"], "slot": 0},
+                 {"op": "edit", "remove": rp.get("remove", []), "write": rp.get("write", {})},
+                 {"op": "compile", "main": w["main"], "lookup": w["lookup"], "slot": 0}]
+        outs2 = compile_steps(w["vfs"], steps)
+        v2 = Vfs.load(w["vfs"])
+        for p_ in rp.get("remove", []):
+            v2.remove(p_)
+        for p_, t_ in rp.get("write", {}).items():
+            v2.write(p_, t_)
+        pristine2 = compile_once(v2.dump(), w["main"], w["lookup"])
+        res["configs"] += 3
+        res["repaired"] = "ok" if "ok" in pristine2 else pristine2["raised"]
+        a, b = outs2[1], pristine2
+        if ("ok" in a) != ("ok" in b) or ("ok" in a and model.canon(a["ok"]) != model.canon(b["ok"])) or ("raised" in a and a["raised"] != b["raised"]):
+            viol("compile-after-repair-equals-pristine", f"{'ok' if 'ok' in a else a['raised']}-vs-{'ok' if 'ok' in b else b['raised']}")
     return res
 
 
